@@ -6,7 +6,7 @@ import copy
 import warnings
 from datetime import datetime, timezone
 
-from vlib.h import ob, excl
+from vlib.h import ob, native
 from harness.sigfix import *          # noqa
 from harness.c08 import split_one
 from pgpy import PGPKey, PGPUID, PGPSignature
@@ -187,26 +187,35 @@ def key_shape(n: int, i0: int, i1: int, i2: int, i3: int) -> bool:
     pre: n >= 2 or i1 == 0
     pre: n >= 3 or i2 == 0
     pre: n >= 4 or i3 == 0
-    pre: excl('KF-C14-opaque-signature', i0 == 16 or (n >= 2 and i1 == 16) or (n >= 3 and i2 == 16) or (n >= 4 and i3 == 16))
     post: _
     """
     idx = [i0, i1, i2, i3]
     out = []
     for j in range(4):
         if j < n:
-            out.append(idx[j])
-    return check_shape(out)
+            for k in range(NM):
+                if idx[j] == k:
+                    out.append(k)          # a concrete int per path
+    with native():                         # contents are concrete: the key parser / exporter run as in production
+        return check_shape(out)
 
 
-@ob('O14.1k', 'witness of KF-C14-opaque-signature: a signature packet by a public-key algorithm PGPy has no signature class for loses its integers on import',
-    'user id followed by such a signature', cond_timeout={'q': 120, 't': 120}, known='KF-C14-opaque-signature', twin=False)
-def key_shape_opaque_sig(i0: int) -> bool:
+@ob('O14.2', 'a signature packet by a public-key algorithm PGPy has no signature class for keeps its integers, and only its own octets, on import, copy and export '
+             '(was finding KF-C14-opaque-signature, repaired)',
+    'any one menu packet followed by such a signature followed by any one menu packet', cond_timeout={'q': 250, 't': 600}, partitions=[['i0 %% 4 == %d' % k] for k in range(4)])
+def key_shape_opaque_sig(i0: int, i2: int) -> bool:
     """
-    pre: i0 == 0
+    pre: 0 <= i0 < NM and 0 <= i2 < NM
     post: _
     """
-    return check_shape([i0, 16])
+    out = []
+    for sym in (i0, i2):
+        for k in range(NM):
+            if sym == k:
+                out.append(k)
+    with native():
+        return check_shape([out[0], 16, out[1]])
 
 
 SANITY = ['key_shape(1, 0, 0, 0, 0)', 'key_shape(2, 0, 6, 0, 0)', 'key_shape(3, 0, 6, 7, 0)', 'key_shape(3, 0, 8, 7, 0)', 'key_shape(4, 0, 6, 3, 10)', 'key_shape(4, 5, 0, 5, 6)',
-          'key_shape(3, 13, 0, 6, 0)', 'key_shape(4, 0, 6, 13, 7)', 'key_shape(4, 1, 12, 9, 8)', 'key_shape(2, 11, 2, 0, 0)', 'key_shape(4, 3, 10, 4, 10)', 'key_shape(3, 6, 7, 8, 0)', 'key_shape(1, 14, 0, 0, 0)', 'key_shape(2, 15, 6, 0, 0)', 'key_shape(2, 1, 8, 0, 0)']
+          'key_shape(3, 13, 0, 6, 0)', 'key_shape(4, 0, 6, 13, 7)', 'key_shape(4, 1, 12, 9, 8)', 'key_shape(2, 11, 2, 0, 0)', 'key_shape(4, 3, 10, 4, 10)', 'key_shape(3, 6, 7, 8, 0)', 'key_shape(1, 14, 0, 0, 0)', 'key_shape(2, 15, 6, 0, 0)', 'key_shape(2, 1, 8, 0, 0)', 'key_shape(2, 0, 16, 0, 0)', 'key_shape(3, 3, 16, 6, 0)', 'key_shape_opaque_sig(13, 0)']
